@@ -478,6 +478,10 @@ def _c12_programs():
     out.append((pre + "int g;\nexport function f(int p) -> int { return p; }", True))
     out.append((pre + "export function f(int p, int p) -> int { return p; }", True))
     out.append((pre + "function h(int q) -> int { int w = q; return w; }\nexport function f(int p) -> int { int w = p; int q = 2; return (w + q); }", False))
+    # a name is not visible after the block that contains a loop of any kind
+    for loop in ("do { o = (o + 1); } while (o < 3)", "while (o < 3) { o = (o + 1); }", "for (int k = 0; k < 2; ++k) { o = (o + 1); }", "if (o < 3) { o = 2; }"):
+        out.append((prog(f"{{ int s = 1; {loop} o = s; }} o = s;"), True))
+        out.append((prog(f"{{ int s = 1; {loop} o = s; }} int s = 2; o = s;"), False))
     # the two branches of an if are disjoint scopes even without braces
     out.append((prog("if (o < 3) int s = 1; else int s = 2;"), False))
     out.append((prog("if (o < 3) int s = 1; else o = s;"), True))
@@ -1140,3 +1144,45 @@ def c14_names(R):
             names = list(r.IRModule.Functions.keys())
             R.check(oid, "nsl.LinearIR::Module.CreateFunction", len(names) == len(perm) + 1 and len(set(names)) == len(names),
                     detail=f"{len(perm) + 1} source functions but IR functions {names} (an overload overwrote another one)")
+
+
+
+@family("C12.typing-scopes", props=["C12", "C05"], functions=["nsl.passes.ComputeTypes::ComputeTypeVisitor.v_CompoundStatement", "nsl.passes.ComputeTypes::ComputeTypeVisitor.v_ForStatement",
+                                                            "nsl.passes.ComputeTypes::ComputeTypeVisitor.v_DoStatement", "nsl.passes.ComputeTypes::ComputeTypeVisitor.v_WhileStatement",
+                                                            "nsl.passes.ComputeTypes::ComputeTypeVisitor.v_IfStatement"],
+        assumptions=["induction on tree height with opaque children (the child visit is answered by 'leaves the scope stack as it found it')"])
+def c12_typing_scopes(R):
+    """The typing pass mirrors the block structure: every scope node visits its children with a scope stack that is one deeper than the incoming
+    one (chained to it), and leaves the stack exactly as it found it -- a scope that stayed on the stack would keep the variables of a closed
+    block visible to the code after it."""
+    import nsl.types as ty
+    cls = resolve("nsl.passes.ComputeTypes::ComputeTypeVisitor")
+    for label, mk in ag.statement_shapes().items():
+        node, _ = mk()
+        kind = type(node).__name__
+        if kind not in SCOPE_NODES or kind == "Function" or not ag.children_of(node):
+            continue
+        v = cls()
+        outer = ty.Scope()
+        stack = [outer]
+        depths = []
+
+        def hyp(child, c, step):
+            depths.append((len(c), c[-1] is not outer, c[0] is outer))
+
+        step = ag.visitor_step(v, node, stack, hyp)
+        ok = step.raised is None and len(stack) == 1 and stack[0] is outer and bool(depths) and all(d == (2, True, True) for d in depths)
+        R.check(f"C12.typing-scopes[{label}]", "nsl.passes.ComputeTypes::ComputeTypeVisitor.v_" + kind, ok,
+                detail=f"scope stack after the node: depth {len(stack)} (must be 1); children saw (depth, own scope, chained to the outer one): {depths}; raised {step.raised!r}",
+                replay=script("""
+                    import io, contextlib
+                    from nsl import Compiler
+                    src = 'export function f(int p) -> int { int o = 1; { int x = 5; int i = 0; do { i = (i + 1); } while (i < 3) o = i; } return x; }'
+                    try:
+                        with contextlib.redirect_stdout(io.StringIO()):
+                            r = Compiler.Compiler().Compile(src)
+                    except BaseException as e:
+                        r = None; print('rejected by', type(e).__name__, e)
+                    print(src, '->', 'accepted' if r is not None else 'rejected', '; x is out of scope at the return: C12 expects rejected')
+                    if r is not None: print('REPLAY-CONFIRMED')
+                    """))
